@@ -30,9 +30,14 @@ class Unsupported(Exception):
     pass
 
 
+# translated as the release build compiles them (the self-test of polyseed_inject is under #ifndef NDEBUG)
+NDEBUG_FUNCS = {"polyseed_inject"}
+
+
 def ast_of(repo, src, fn):
-    cmd = ["clang", "-std=c11", "-fsyntax-only", "-iquote", repo + "/src", "-I", repo + "/include",
-           "-Xclang", "-ast-dump=json", "-Xclang", "-ast-dump-filter=" + fn, repo + "/src/" + src]
+    cmd = ["clang", "-std=c11", "-fsyntax-only", "-iquote", repo + "/src", "-I", repo + "/include"] + \
+          (["-DNDEBUG"] if fn in NDEBUG_FUNCS else []) + \
+          ["-Xclang", "-ast-dump=json", "-Xclang", "-ast-dump-filter=" + fn, repo + "/src/" + src]
     txt = subprocess.run(cmd, stdout=subprocess.PIPE, stderr=subprocess.DEVNULL, universal_newlines=True).stdout
     dec = json.JSONDecoder()
     i = 0
@@ -1152,7 +1157,9 @@ TARGETS = [
 SIGS = {}          # C function -> dict(extra, globals, params, outs, option, cparams, void)
 STRUCT_SIZE = {"polyseed_data": "sizeof_data", "gf_poly": "sizeof_poly", "struct polyseed_data": "sizeof_data"}
 API_INLINE = {"polyseed_free": "polyseed.c", "store32": "polyseed.c"}
-FUNC_CODES = {"compare_str_wrap": 0, "compare_prefix_wrap": 1, "compare_str_noaccent_wrap": 2, "compare_prefix_noaccent_wrap": 3}
+FUNC_CODES = {"compare_str_wrap": 0, "compare_prefix_wrap": 1, "compare_str_noaccent_wrap": 2, "compare_prefix_noaccent_wrap": 3,
+              "stdlib_time": -1, "malloc": -2, "free": -3}       # the libc defaults of the dependency table
+DEP_FIELDS = []
 
 
 def strip(n):
@@ -1614,6 +1621,21 @@ class ApiFn(Fn):
             pre = self.hoist(n["inner"][0])
             if pre:
                 return self.with_hoist(pre, n, rest, k)
+        if kind == "BinaryOperator" and n.get("opcode") == "=" and \
+                "polyseed_dependency" in n.get("type", {}).get("qualType", "") and "*" not in n.get("type", {}).get("qualType", ""):
+            # struct assignment of the dependency table: field by field
+            lhs = self.lval_name(strip(n["inner"][0]))
+            r0 = strip(n["inner"][1])
+            if r0.get("kind") == "UnaryOperator" and r0.get("opcode") == "*":
+                rhs = self.lval_name(strip(r0["inner"][0]))
+            else:
+                rhs = self.lval_name(r0)
+            if not DEP_FIELDS:
+                raise Unsupported("fields of polyseed_dependency unknown")
+            out = ""
+            for fld in DEP_FIELDS:
+                out += self.assign(("%s_%s" % (lhs, fld), None), self.cur("%s_%s" % (rhs, fld), False))
+            return out + self.S(rest, k)
         if kind in ("BinaryOperator", "CompoundAssignOperator") and n.get("opcode", "").endswith("=") and \
                 n["opcode"] not in ("==", "!=", "<=", ">="):
             pre = self.hoist(n["inner"][1]) + self.hoist(n["inner"][0])
@@ -1890,6 +1912,7 @@ API_TARGETS = [
     ("gf.c", "gf_poly_check", [("polyseed_mul2_table", "list Z"), ("message_coeff", "list Z")], [], ["polyseed_mul2_table"], "Z"),
     ("gf.c", "gf_poly_encode", [("polyseed_mul2_table", "list Z"), ("message_coeff", "list Z")], ["message_coeff"], ["polyseed_mul2_table"], "list Z"),
     ("lang.c", "get_comparer", [("lang", "Z")], [], [], "Z"),
+    ("dependency.c", "polyseed_inject", "@inject", "@inject", [], "@inject"),
     ("polyseed.c", "polyseed_free", [("seed", "Z")], ["ev"], [], "list cev"),
     ("polyseed.c", "polyseed_get_birthday", data_params("data"), [], [], "Z"),
     ("polyseed.c", "polyseed_get_feature", data_params("seed") + [("mask", "Z")], [], [], "Z"),
@@ -1935,11 +1958,34 @@ IDX_MODE = {"str_split": {}, "write_str": {"loc": "buf", "@scalars": ("pos",)}, 
 SIG_EXTRA = {"str_split": {"idx_out": {"words": "str"}}, "write_str": {"implicit": {"buf": "pos"}}}
 
 
+def load_dep_fields(repo):
+    cmd = ["clang", "-std=c11", "-fsyntax-only", "-I", repo + "/include", "-Xclang", "-ast-dump=json",
+           "-Xclang", "-ast-dump-filter=polyseed_dependency", repo + "/include/polyseed.h"]
+    txt = subprocess.run(cmd, stdout=subprocess.PIPE, stderr=subprocess.DEVNULL, universal_newlines=True).stdout
+    dec = json.JSONDecoder()
+    i = 0
+    while i < len(txt):
+        while i < len(txt) and txt[i] in " \n\r\t":
+            i += 1
+        if i >= len(txt):
+            break
+        d, i = dec.raw_decode(txt, i)
+        if d.get("kind") == "RecordDecl" and d.get("completeDefinition"):
+            DEP_FIELDS[:] = [c["name"] for c in d.get("inner", []) if c.get("kind") == "FieldDecl"]
+            return
+
+
 def api_main(repo, out, base_info):
+    load_dep_fields(repo)
     parts = [API_PRELUDE]
     status = {}
     known = {}
     for src, fn, params, outs, gl, rty in API_TARGETS:
+        if params == "@inject":
+            # the table handed in and the table in place before the call, one integer per entry (0 = NULL)
+            params = [("deps_" + x, "Z") for x in DEP_FIELDS] + [("polyseed_deps_" + x, "Z") for x in DEP_FIELDS]
+            outs = ["polyseed_deps_" + x for x in DEP_FIELDS]
+            rty = " * ".join("Z" for _ in DEP_FIELDS) or "unit"
         try:
             node = ast_of(repo, src, fn)
             f = ApiFn(fn, node, gl, known)
